@@ -150,7 +150,17 @@ def p_int(itp, name, args, kw, node, st):
             if fl.is_const():
                 return Const(int(fl.c), n.taint)
             return IntV(fl, n.taint)
-    return IntV(None, taint_of(v))
+    r = IntV(None, taint_of(v))
+    _fwd_bounds(v, r, integral_only=True)
+    return r
+
+
+def _fwd_bounds(src, dst, integral_only=False):
+    """forward the size-bound facts of a scalar (see p_log / p_round / binop): clog2 / flog2 = ceil / floor of log2 of an exact
+    integer size, lb / ub = lower / upper bound.  int() keeps them only for values that are already integers."""
+    for k_ in ('clog2', 'flog2', 'lb', 'ub') + (() if integral_only else ('log2of',)):
+        if getattr(src, k_, None) is not None:
+            setattr(dst, k_, getattr(src, k_))
 
 
 @prim('builtins.float', 'builtins.complex', 'numpy.float64')
@@ -588,10 +598,14 @@ def p_round(itp, name, args, kw, node, st):
     if n.ex is not None:
         b = name.split('.')[-1]
         r.ex = n.ex.ceil() if b == 'ceil' else (n.ex.floor() if b == 'floor' else (n.ex if n.ex.is_integral() else None))
+    l2 = getattr(v, 'log2of', None)
+    kind = {'ceil': 'clog2', 'floor': 'flog2'}.get(name.split('.')[-1])
     if name.startswith(('builtins', 'math')) and r.shape == ():
         if r.ex is not None:
             return Const(int(r.ex.c), r.taint) if r.ex.is_const() else IntV(r.ex, r.taint)
-        return IntV(None, r.taint)
+        r = IntV(None, r.taint)
+    if l2 is not None and kind is not None:
+        setattr(r, kind, l2)          # ceil / floor of log2(<exact integer size>)
     return r
 
 
@@ -716,6 +730,18 @@ def p_linspace(itp, name, args, kw, node, st):
     r.zero = False
     r.nonneg = False
     r.taint = taints(*args)
+    # frequency grids: both end points exact multiples of the sampling rate -> element i = lo + i*(hi-lo)/(num-1)
+    def frac(v, nv):
+        if nv.fsf is not None:
+            return nv.fsf
+        if nv.zero or (isinstance(v, Const) and v.v == 0):
+            return sp.Integer(0)
+        return None
+    fa, fb = frac(args[0], a), frac(args[1], b)
+    ep = arg(args, kw, 3, 'endpoint', Const(True))
+    if fa is not None and fb is not None and n is not None and isinstance(ep, Const) and isinstance(ep.v, bool):
+        cnt = n.to_sympy()
+        r.fgrid = (fa, sp.cancel((fb - fa) / ((cnt - 1) if ep.v else cnt)))
     return r
 
 
@@ -780,7 +806,9 @@ def p_astype(itp, name, args, kw, node, st):
         if n.shape == ():
             if n.ex is not None and n.ex.is_integral():
                 return IntV(n.ex, n.taint)
-            return IntV(None, n.taint)
+            r_ = IntV(None, n.taint)
+            _fwd_bounds(args[0], r_, integral_only=True)
+            return r_
         return n.copy(cplx=False)
     c = _dtype_cplx(t, None)
     r = n.copy()
@@ -845,6 +873,28 @@ def p_resize(itp, name, args, kw, node, st):
     return Const(None)
 
 
+@prim('collections.namedtuple')
+def p_namedtuple(itp, name, args, kw, node, st):
+    tn = arg(args, kw, 0, 'typename')
+    fl = arg(args, kw, 1, 'field_names')
+    fields = None
+    if isinstance(fl, Const) and isinstance(fl.v, str):
+        fields = fl.v.replace(',', ' ').split()
+    elif isinstance(fl, Const) and isinstance(fl.v, (list, tuple)) and all(isinstance(x, str) for x in fl.v):
+        fields = list(fl.v)
+    elif isinstance(fl, Tup) and all(isinstance(x, Const) and isinstance(x.v, str) for x in fl.items):
+        fields = [x.v for x in fl.items]
+    if fields is None or not isinstance(tn, Const):
+        return mk(itp, name, *args)
+    return NamedTupleV(tn.v, fields)
+
+
+@prim('numpy.finfo', 'numpy.iinfo')
+def p_finfo(itp, name, args, kw, node, st):
+    """machine limits of a dtype: an object whose attributes are plain constants (see e_Attribute)"""
+    return Opaque('finfo:' + name.split('.')[-1])
+
+
 @prim('numpy.result_type', 'numpy.promote_types', 'numpy.find_common_type')
 def p_result_type(itp, name, args, kw, node, st):
     """the promoted dtype: complex as soon as one operand is complex"""
@@ -867,7 +917,11 @@ def p_next_fast_len(itp, name, args, kw, node, st):
     """the smallest 5-/11-smooth size >= n: a different number for every awkward n"""
     Aff.SYM_MIN.setdefault('fastlen', 1)
     USED.add('next_fast_len(n) >= n is a size of its own (not n) whenever n has a large prime factor')
-    return IntV(Aff.sym('fastlen'), taints(*args), name='fastlen')
+    r = IntV(Aff.sym('fastlen'), taints(*args), name='fastlen')
+    a0 = _int_aff(args[0]) if args else None
+    if a0 is not None:
+        r.lb = a0
+    return r
 
 
 def _const_list(v):
@@ -1164,6 +1218,8 @@ def p_log(itp, name, args, kw, node, st):
     if n is None:
         return mk(itp, 'log', v)
     r = Num(zero_deg(), n.shape, False, taint=n.taint)
+    if b == 'log2' and n.shape == () and n.ex is not None and n.ex.is_integral():
+        r.log2of = n.ex           # log2 of an exact integer size (FFT lengths: 2 ** ceil(log2(n)))
     if n.log is not None:
         r.deg = top_deg()
         return r
@@ -1208,6 +1264,11 @@ def p_bilinear(itp, name, args, kw, node, st):
     a, b = N(args[0]), N(args[1])
     if a is None or b is None:
         return mk(itp, name, *args)
+    rows_ = getattr(args[0], 'stack', None)
+    if base == 'dot' and rows_ and b.shape is not None and len(b.shape) == 1:
+        # (rows stacked by vstack) . v  ==  array([dot(row, v) for each row])
+        outs = [p_bilinear(itp, name, [r_, args[1]], kw, node, st) for r_ in rows_]
+        return p_array(itp, 'numpy.array', [Tup(outs)], {}, node, st)
     if base == 'vdot':
         a = p_conj(itp, 'numpy.conj', [a], {}, node, st)
     if base == 'correlate':
@@ -1222,6 +1283,19 @@ def p_bilinear(itp, name, args, kw, node, st):
             pass            # scalar times array: plain product
         elif base == 'dot' and a.shape is not None and b.shape is not None and (len(a.shape), len(b.shape)) in ((1, 2), (2, 1), (2, 2)):
             r.q = Q.contract(itp, a.q, b.q, node)
+        elif base == 'outer':
+            # outer(a, b)[i, j] = a[i] * b[j]: the charge of the entry is the sum of the two element charges
+            def ab_(q_):
+                if isinstance(q_, Aff):
+                    return F(0), q_
+                if Q.is_lin(q_):
+                    return q_[1], q_[2]
+                return None
+            if a.q == 'any' or b.q == 'any':
+                r.q = 'any'
+            else:
+                pa_, pb_ = ab_(a.q), ab_(b.q)
+                r.q = Q.lin2(pa_[0], pb_[0], pa_[1] + pb_[1]) if (pa_ is not None and pb_ is not None) else None
         elif base not in ('multiply',):
             r.q = None
     sa, sb = a.shape, b.shape
@@ -1251,6 +1325,13 @@ def p_bilinear(itp, name, args, kw, node, st):
                 USED.add("correlate(x, y, 'full') has 2N-1 values with lag 0 at index len(y)-1")
         else:
             r.shape = (None,)
+    elif base == 'outer':
+        # outer flattens both operands: one row per element of the first, one column per element of the second
+        def flat_len(sh):
+            if sh is not None and len(sh) == 1:
+                return sh[0]
+            return None
+        r.shape = (flat_len(sa), flat_len(sb))
     else:
         r.shape = None
     r.nonneg = False
@@ -1466,6 +1547,11 @@ def p_std(itp, name, args, kw, node, st):
     if not n.zero:
         r.deg['g'] = F(0)
         r.deg['gy'] = F(0)
+    if not hasattr(itp, 'cen_nodes'):
+        itp.cen_nodes = {}
+    lab = 'CEN:%d' % len(itp.cen_nodes)
+    itp.cen_nodes[lab] = (node, itp.cur.qname if itp.cur else '')
+    r.taint = r.taint | frozenset([lab])          # a moment about the mean: unchanged when a constant is added to the data
     return r
 
 
@@ -1825,6 +1911,8 @@ def p_take(itp, name, args, kw, node, st):
 def p_einsum(itp, name, args, kw, node, st):
     """single-operand reductions only ('ab->b', 'ab->a', 'a->'): a sum over the dropped axes"""
     spec = args[0].v if args and isinstance(args[0], Const) and isinstance(args[0].v, str) else None
+    if spec is not None and ',' in spec:
+        return _einsum_multi(itp, name, spec.replace(' ', ''), args, kw, node, st)
     if spec is None or len(args) != 2 or '->' not in spec or ',' in spec:
         return mk(itp, name, *args)
     lhs, rhs = spec.replace(' ', '').split('->')
@@ -1834,6 +1922,105 @@ def p_einsum(itp, name, args, kw, node, st):
     drop = [i for i, c in enumerate(lhs) if c not in rhs]
     for ax in sorted(drop, reverse=True):
         r = p_sum(itp, 'numpy.sum', [r], {'axis': Const(ax)}, node, st)
+    return r
+
+
+def _einsum_multi(itp, name, spec, args, kw, node, st):
+    """several operands: (a) identical subscripts -> elementwise product, then a sum over the dropped axes; (b) the two-operand
+    matrix / inner products -> numpy.dot; (c) otherwise the product typed on exponents only (shape from the subscripts)"""
+    ops = [N(a) for a in args[1:]]
+    if any(o is None for o in ops) or kw:
+        return mk(itp, name, *args)
+    if '->' in spec:
+        lhs, rhs = spec.split('->')
+    else:
+        lhs = spec
+        flat = lhs.replace(',', '')
+        rhs = ''.join(sorted(c for c in set(flat) if flat.count(c) == 1))
+    subs = lhs.split(',')
+    if len(subs) != len(ops) or any(len(set(x)) != len(x) for x in subs) or len(set(rhs)) != len(rhs):
+        return mk(itp, name, *args)
+    if all(x == subs[0] for x in subs) and set(rhs) <= set(subs[0]) and list(rhs) == [c for c in subs[0] if c in rhs]:
+        r = args[1]
+        for o in args[2:]:
+            r = itp.binop(ast.Mult(), r, o, node)
+        for ax in sorted([i for i, c in enumerate(subs[0]) if c not in rhs], reverse=True):
+            r = p_sum(itp, 'numpy.sum', [r], {'axis': Const(ax)}, node, st)
+        return r
+    if len(ops) == 2 and (subs[0], subs[1], rhs) in (('ij', 'j', 'i'), ('ij', 'jk', 'ik'), ('i', 'ij', 'j')):
+        return p_bilinear(itp, 'numpy.dot', [args[1], args[2]], {}, node, st)
+    dims = {}
+    for x, o in zip(subs, ops):
+        if o.shape is None or len(o.shape) != len(x):
+            return mk(itp, name, *args)
+        for c, d in zip(x, o.shape):
+            dims.setdefault(c, d)
+    r = ops[0].copy(shape=())
+    for o in ops[1:]:
+        r = num_mul(itp, r, o.copy(shape=()), node)
+    r = r.copy(shape=tuple(dims.get(c) for c in rhs), taint=taints(*args[1:]))
+    r.ex = None
+    r.q = None
+    r.nonneg = False
+    r.sz = r.sz if all(o.sz is not None for o in ops) else None
+    return r
+
+
+@prim('numpy.vstack', 'numpy.row_stack', 'numpy.column_stack')
+def p_stack2(itp, name, args, kw, node, st):
+    """vstack((r0, r1, ..)): equal-length vectors as the rows of a matrix (2-D parts keep their rows);
+    column_stack((c0, c1, ..)): vectors as columns next to 2-D blocks with the same number of rows"""
+    v = args[0] if args else None
+    if not isinstance(v, Tup) or not v.items:
+        return mk(itp, name, *args)
+    parts = [N(_seq_as_num(p_)) for p_ in v.items]
+    if any(p_ is None or p_.shape is None or len(p_.shape) not in (1, 2) for p_ in parts):
+        return mk(itp, name, *args)
+    cols = name.endswith('column_stack')
+    r = None
+    cnt = Aff(0)
+    other = None
+    for p_ in parts:
+        if len(p_.shape) == 1:
+            cnt = (cnt + 1) if cnt is not None else None
+            o_ = p_.shape[0]
+        else:
+            k_ = p_.shape[1] if cols else p_.shape[0]
+            cnt = (cnt + k_) if (cnt is not None and k_ is not None) else None
+            o_ = p_.shape[0] if cols else p_.shape[1]
+        other = o_ if other is None else other
+        r = p_.copy() if r is None else num_add(itp, r, p_, node, 'concat')
+    r = r.copy(shape=((other, cnt) if cols else (cnt, other)), taint=taints(*v.items))
+    r.ex = None
+    if itp.d4:
+        qs = [p_.q for p_ in parts]
+        same = all(isinstance(q_, Aff) for q_ in qs) and all(q_ == qs[0] for q_ in qs)
+        r.q = qs[0] if same else ('any' if all(q_ == 'any' for q_ in qs) else None)
+    if not cols and all(len(p_.shape) == 1 for p_ in parts) and len(parts) <= 4:
+        r.stack = list(v.items)          # the rows, for a following matrix-vector product (see numpy.dot)
+    return r
+
+
+@prim('numpy.trace', 'ndarray.trace')
+def p_trace(itp, name, args, kw, node, st):
+    """trace(M, offset=k): the sum of the entries of one diagonal"""
+    n = N(args[0])
+    if n is None or n.shape is None or len(n.shape) != 2:
+        return mk(itp, name, *args)
+    r = n.copy(shape=(), taint=n.taint | taints(*args[1:]) | taints(*kw.values()))
+    r.ex = None
+    r.intdt = n.intdt
+    if itp.d4 and not (isinstance(n.q, Aff) or n.q == 'any'):
+        from . import charge as Q
+        r.q = None
+        off = arg(args, kw, 1, 'offset', Const(0))
+        k = _int_aff(off)
+        if Q.is_lin2(n.q) and k is not None:
+            # entries (i, i+k): charge (ar+ac)*i + ac*k + b -- one charge for the whole diagonal iff ar + ac == 0
+            if n.q[1] + n.q[2] == 0:
+                r.q = n.q[3] + k.scale(n.q[2])
+            else:
+                itp.conflict('add', 'q', 'trace of a matrix whose diagonal entries carry different modulation charges (%s)' % Q.show(n.q), node)
     return r
 
 
